@@ -131,6 +131,24 @@ Theorem C05_push_mhn_scheme1 : forall Gam a d, 0 < Gam -> 0 < d ->
 Proof. exact push_mhn_scheme1. Qed.
 Print Assumptions C05_push_mhn_scheme1.
 
+(* ---------------- the distribution function of the draw ----------------
+   x |-> P(g(U) <= x) = Fb(ginv x) for increasing g (1 - Fb(ginv x) for decreasing g) has the documented pdf as derivative on the
+   support, for EVERY `pushes` instance above (this contains the older C05_wiring_lognormal / C05_invgamma_generation /
+   C05_mhn_sqrt_gamma_density as special cases) *)
+Theorem C05_push_cdf_increasing : forall (supp_b supp : R -> Prop) (g ginv dginv base pdf Fb : R -> R) x,
+  pushes supp_b supp g ginv dginv base pdf -> (forall x, supp x -> 0 < dginv x) ->
+  (forall u, supp_b u -> is_derive Fb u (base u)) -> supp x ->
+  is_derive (fun t => Fb (ginv t)) x (pdf x).
+Proof. exact pushes_cdf_increasing. Qed.
+Print Assumptions C05_push_cdf_increasing.
+
+Theorem C05_push_cdf_decreasing : forall (supp_b supp : R -> Prop) (g ginv dginv base pdf Fb : R -> R) x,
+  pushes supp_b supp g ginv dginv base pdf -> (forall x, supp x -> dginv x < 0) ->
+  (forall u, supp_b u -> is_derive Fb u (base u)) -> supp x ->
+  is_derive (fun t => 1 - Fb (ginv t)) x (pdf x).
+Proof. exact pushes_cdf_decreasing. Qed.
+Print Assumptions C05_push_cdf_decreasing.
+
 (* ---------------- from the differential form to PROBABILITIES of intervals (Coquelicot's Riemann integral) ----------------
    If Fb is a distribution function of the base law (Fb' = base on the base support), then for every interval [a,b] inside the
    support the integral of the documented pdf over [a,b] is the base probability of the pre-image of (a,b]. *)
